@@ -126,3 +126,29 @@ def extra(ctx):
                 failures.append(f"the generator produced no '{need}' case in {len(cases)} cases")
     coverage = {"case_tags": dict(sorted(tags.items()))}
     return {"coverage": coverage, "known": known, "oracle_failures": oracle_failures, "failures": failures}
+
+
+def replay(obj):
+    """Re-run the recorded case (same seed, tier and case number) and report whether it still fails.
+    Scripted and API cases replay exactly; a stress case is a fresh OS schedule of the same
+    configuration and controller script, so a failure seen once may need several replays."""
+    import json
+    import sys
+
+    import check
+
+    mod = sys.modules[__name__]
+    if "case" not in obj:
+        print(json.dumps(obj, indent=1))
+        print("this replay names a broken obligation, not an input; re-run the check itself")
+        return 1
+    r = check.standard_run(mod, obj.get("tier", "quick"), obj["seed"], only=obj["case"])
+    for d in r["disagreements"]:
+        print(f"case {d['case']} op {d['op_index']}: {d['op']}\n  impl : {d['impl']}\n  model: {d['model']}")
+    for o in r["oracle_failures"]:
+        print(f"oracle on the implementation: {o['what']}")
+    for k in r["known"]:
+        print(f"KNOWN-FINDING: property=C20 {k}")
+    bad = bool(r["disagreements"] or r["failures"] or r["oracle_failures"])
+    print("replay:", "still fails" if bad else "passes")
+    return 1 if bad else 0
